@@ -864,6 +864,51 @@ func c11Merge(c *core.Ctx) int {
 			}
 		}
 	}
+	// literals of every size around the internal thresholds with one key written twice (the later value wins) and with
+	// equal-but-not-identical duplicates (the first key object stays)
+	for _, sz := range []int{2, 4, 5, 6, 16, 17, 63, 64, 65, 66, 100, 300} {
+		for _, dupAt := range []string{"first-last", "adjacent", "int-float"} {
+			key := fmt.Sprintf("litdup|%d|%s", sz, dupAt)
+			if !c.MineNoDedup("merge", key) {
+				continue
+			}
+			n++
+			var parts []string
+			mod := ref.NewMap()
+			add := func(k ref.Value, v int) {
+				parts = append(parts, ref.Source(k)+": "+fmt.Sprint(v))
+				mod = ref.MapSet(mod, k, ref.Int(int64(v)))
+			}
+			for i := 0; i < sz; i++ {
+				add(ref.Int(int64(i*3)), i)
+				if dupAt == "adjacent" && i == sz/2 {
+					add(ref.Int(int64(i*3)), 1000+i)
+				}
+			}
+			switch dupAt {
+			case "first-last":
+				add(ref.Int(0), 2000)
+			case "int-float":
+				add(ref.Float(3.0), 3000)
+			}
+			src := "{" + strings.Join(parts, ", ") + "}"
+			cs := core.Case{Kind: "merge", Data: key}
+			c.Current(cs)
+			v := c.Run(func() *core.Viol {
+				x := newSess(sessCfg{})
+				r := implEval(x, src, 1000000)
+				if r.isErr || r.val != ref.Dump(mod) {
+					return &core.Viol{Class: "literal-duplicate-key", Detail: fmt.Sprintf("%s: literal of %d pairs gave %s %s, reference %s", key, len(parts), trunc(r.val, 200), r.errText, trunc(ref.Dump(mod), 200)), Case: cs}
+				}
+				return nil
+			})
+			out := "merge-ok"
+			if v != nil {
+				out = v.Class
+			}
+			c.CountNT(key, out, true)
+		}
+	}
 	return n
 }
 
